@@ -16,10 +16,10 @@ URefsOf ==
   [n \in UNames |->
     CASE n = "Q" -> {"I", "U", "A", "E", "Cu", "Int", "In", "In2", "F", "Boolean", "In3"}
       [] n = "I" -> {"String", "Int"}
-      [] n = "J" -> {"I"}
+      [] n = "J" -> {"I", "In4"}
       [] n = "A" -> {"I", "String", "Int", "A"}
       [] n = "B" -> {"I", "String", "Int", "Boolean", "U"}
-      [] n = "C" -> {"I", "J", "String", "Int", "A", "D"}
+      [] n = "C" -> {"I", "J", "String", "Int", "A", "D", "In4"}
       [] n = "D" -> {"G", "Int"}
       [] n = "K" -> {"I", "String", "Int"}
       [] n = "U" -> {"A", "B"}
